@@ -384,7 +384,7 @@ def obs_sites(psi, loc):
         if bad:
             return None, bad
         right.append(u)
-    arrs, cur = [], None
+    arrs = []
     for i, (a, is_site) in enumerate(els):
         if i == 0:
             left = right[-1].conj() if periodic else a.get_legs(axes=0)
